@@ -85,12 +85,12 @@ func (w *bw19) nalu(hdr ...byte) []byte {
 }
 
 type psSet struct {
-	codec              string // avc | hevc
-	vps, sps, pps      [][]byte
-	w, h               int
-	profile, compat    byte
-	level              byte
-	chroma, bdl, bdc   int
+	codec            string // avc | hevc
+	vps, sps, pps    [][]byte
+	w, h             int
+	profile, compat  byte
+	level            byte
+	chroma, bdl, bdc int
 	// HEVC profile_tier_level (general part), as written into VPS and SPS
 	space      byte
 	tier       bool
@@ -376,6 +376,7 @@ type trackPlan struct {
 	desc  string // "" | avc1 | avc3 | avc3nops | hvc1 | hev1 | hev1nops | aac | ac3 | ec3 | wvtt | stpp
 	after int    // descriptor is set after this many further AddEmptyTrack calls
 	seed  int64  // parameters of the descriptor
+	again int    // > 0: the same Set...Descriptor is called once more at the end, with other parameters (seed+again)
 }
 
 type initPlan struct{ tracks []trackPlan }
@@ -387,7 +388,11 @@ func (p *initPlan) line() string {
 		if d == "" {
 			d = "-"
 		}
-		s = append(s, fmt.Sprintf("%d:%s:%s:%s:%d:%d", t.ts, t.media, t.lang, d, t.after, t.seed))
+		w := fmt.Sprintf("%d:%s:%s:%s:%d:%d", t.ts, t.media, t.lang, d, t.after, t.seed)
+		if t.again > 0 {
+			w += fmt.Sprintf(":%d", t.again)
+		}
+		s = append(s, w)
 	}
 	return "inithist " + strings.Join(s, " ")
 }
@@ -396,7 +401,7 @@ func parseInitPlan(req string) *initPlan {
 	p := &initPlan{}
 	for _, w := range strings.Fields(req)[1:] {
 		x := strings.Split(w, ":")
-		if len(x) != 6 {
+		if len(x) != 6 && len(x) != 7 {
 			continue
 		}
 		d := x[3]
@@ -405,7 +410,11 @@ func parseInitPlan(req string) *initPlan {
 		}
 		var seed int64
 		fmt.Sscan(x[5], &seed)
-		p.tracks = append(p.tracks, trackPlan{uint32(atoi(x[0])), x[1], x[2], d, atoi(x[4]), seed})
+		tp := trackPlan{uint32(atoi(x[0])), x[1], x[2], d, atoi(x[4]), seed, 0}
+		if len(x) == 7 {
+			tp.again = atoi(x[6])
+		}
+		p.tracks = append(p.tracks, tp)
 	}
 	return p
 }
@@ -436,6 +445,9 @@ func genInitPlan(r *rand.Rand) *initPlan {
 			t.media = []string{"meta", "clcp"}[r.Intn(2)]
 		}
 		t.after = r.Intn(3)
+		if t.desc != "" && r.Intn(6) == 0 {
+			t.again = 1 + r.Intn(3) // the descriptor of this track is set a second time (a caller correcting its parameters)
+		}
 		p.tracks = append(p.tracks, t)
 	}
 	return p
@@ -462,10 +474,11 @@ var mhdr19 = map[string]string{"video": "vmhd", "audio": "smhd", "subtitle": "st
 func buildInit(p *initPlan) (*mp4.InitSegment, []*expTrack, error) {
 	init := mp4.CreateEmptyInit()
 	exp := make([]*expTrack, len(p.tracks))
+	salt := int64(0)
 	apply := func(i int) error {
 		t := p.tracks[i]
 		e := exp[i]
-		r := rand.New(rand.NewSource(t.seed))
+		r := rand.New(rand.NewSource(t.seed + salt))
 		trak := init.Moov.Traks[i]
 		switch t.desc {
 		case "avc1", "avc3", "avc3nops":
@@ -536,6 +549,18 @@ func buildInit(p *initPlan) (*mp4.InitSegment, []*expTrack, error) {
 			if err := apply(j); err != nil {
 				return nil, nil, fmt.Errorf("descriptor of track %d: %w", j+1, err)
 			}
+		}
+	}
+	// descriptors set a second time: what counts is the last call
+	for j, t := range p.tracks {
+		if t.again > 0 && t.desc != "" {
+			salt = int64(t.again)
+			ne := &expTrack{}
+			exp[j] = ne
+			if err := apply(j); err != nil {
+				return nil, nil, fmt.Errorf("second descriptor of track %d: %w", j+1, err)
+			}
+			salt = 0
 		}
 	}
 	return init, exp, nil
@@ -678,8 +703,11 @@ func checkInitTree(init *mp4.InitSegment, p *initPlan, exp []*expTrack) (string,
 			}
 			continue
 		}
-		if len(stsd.Children) != 1 || stsd.Children[0].Type() != e.entryType || stsd.SampleCount != 1 {
-			return "C19-entry", fmt.Sprintf("track %d: stsd has %d entries (count %d), want one %s", i+1, len(stsd.Children), stsd.SampleCount, e.entryType)
+		// one entry per Set...Descriptor call (a second call appends a further entry: the one that counts is the last);
+		// the count field must say what the box holds
+		n := len(stsd.Children)
+		if n < 1 || n > 2 || stsd.Children[n-1].Type() != e.entryType || int(stsd.SampleCount) != n {
+			return "C19-entry", fmt.Sprintf("track %d: stsd has %d entries (count %d), want the last one to be the %s supplied", i+1, len(stsd.Children), stsd.SampleCount, e.entryType)
 		}
 		switch e.entryType {
 		case "avc1", "avc3":
